@@ -2,18 +2,18 @@ from runner import Job
 import stubs_number
 
 ASSUME = ['clang-14 -O1 lowering preserves semantics; llsym implements the IR semantics it uses; compiled with -D__SANITIZE_ADDRESS__ (sanitizer code path for key comparison)',
-          'texts are built from 21 concrete skeletons (scalar root, one/two/nested members, arrays, permuted / undeclared / escaped keys, empty object) whose first value slot is a symbolic digit and whose other slots range over six values of every kind via symbolic selectors',
+          'texts are built from 25 concrete skeletons (scalar root, one/two/nested members, arrays, permuted / undeclared / escaped keys, empty object) whose first value slot is a symbolic digit and whose other slots range over six values of every kind via symbolic selectors',
           'expected result = the merge stated by the property, computed on parsed copies with the DOM API (whose container behaviour is C12); comparison is an ordered structural walk',
           'number back ends as in C01 (pinned values run for real); std::string construction and std::multimap rebalancing modelled by their libstdc++ contracts; allocation never fails']
 PAIRS19 = [(e, x) for e in (0, 1, 2, 3, 4, 5, 12, 13) for x in (0, 1, 2, 5, 6, 7, 8, 9, 10, 11, 12, 13, 14, 15)]
 PAIRS20 = [(e, x) for e in (0, 1, 2, 3, 5, 11, 12, 13) for x in (0, 1, 2, 5, 6, 7, 8, 9, 11, 12, 13, 14)]
 
 
-def jobs(pid, which, tier, defines=(), pairs=None, twice=0):
+def jobs(pid, which, tier, defines=(), pairs=None, twice=0, tagx=''):
     J = []
     for (e, x) in pairs:
         heavy = (e in (3, 10, 12, 18) and x in (3, 8, 10, 12, 13, 18)) or (e in (3,) and x in (2, 6, 7)) or x == 14 or e == 14
-        J.append(Job('%s%s.e%d.x%d' % (pid, '.simple' if 'ALLOC_SIMPLE' in defines else '', e, x), 'harness/c_merge.cpp', '@h_merge', [which, e, x, twice],
+        J.append(Job('%s%s.e%d.x%d%s' % (pid, '.simple' if 'ALLOC_SIMPLE' in defines else '', e, x, tagx), 'harness/c_merge.cpp', '@h_merge', [which, e, x, twice],
                      defines=tuple(defines) + ('__SANITIZE_ADDRESS__',), keep=stubs_number.KEEP, stubs='stubs_number', nproc=8 if heavy else 2, timeout=3400, max_paths=2000000,
                      max_steps=30000000, bound='skeleton #%d x skeleton #%d (harness/c_merge.cpp kShape), all slot values' % (e, x)))
     return J
